@@ -1,4 +1,4 @@
-import VtProofs.BBoxMore
+import VtProofs.PyramidInclude
 /-!
 # C15 — tile bounding boxes and pyramids behave as the sets of tiles they denote
 
@@ -185,6 +185,15 @@ theorem pyramid_zoom_min (p : Pyramid) :
     (Pyramid.zoomMin p = none ↔ Pyramid.isEmpty p = true) ∧
     (∀ z, Pyramid.zoomMin p = some z → ∃ b ∈ p, b.level = z ∧ b.isEmpty = false) :=
   ⟨zoomMin_none_iff p, fun z h => zoomMin_spec p z h⟩
+
+open VtModel.Pyramid in
+/-- `include_bbox_pyramid` is the per-level bounding union; panic-free on well-formed pyramids -/
+theorem pyramid_include_pyramid (p q : Pyramid) (hp : WF p) (hq : WF q) :
+    ∃ r, Pyramid.includePyramid p q = .ok r ∧ WF r ∧
+      ∀ z (_hz : z < 32), ∃ a b, p[z]? = some a ∧ q[z]? = some b ∧
+        (b.isEmpty = true → r[z]? = some a) ∧
+        (b.isEmpty = false → ∃ c, a.includeBBox b = .ok c ∧ r[z]? = some c) :=
+  includePyramid_spec hp hq
 
 /-! ### non-vacuity: the hypotheses are met by concrete, non-trivial boxes -/
 
